@@ -68,7 +68,12 @@ GEN_VARIANTS = [
     ('bad_enc', dict(uid=BYPASS, enc=9), False),
     ('late', dict(uid=BYPASS, ts=NOW_S - 1000), False),
     ('wrong_key', dict(uid=BYPASS, pv=PV2), False),
+    ('ok_admin', dict(uid=ADMIN, sid=0), True),
 ]
+# blocks a forger seals under the all-zero key for each small-order ephemeral value (never uses the server's public key)
+def forge_specs():
+    return [dict(id='seal_%s' % pn, kind='seal', point=pn, u=u.hex(), key='00' * 32, nonce=u[:12].hex(), uid=BYPASS, sid=3,
+                 method='shadowsocks', enc=1, unordered=False, ts=NOW_S) for pn, u in FORGE_POINTS]
 KINDS = [('tls', 'chrome'), ('tls', 'firefox'), ('tls', 'safari'), ('ws', 'chrome')]
 
 
@@ -106,6 +111,90 @@ def packet_random(kind, pkt):
 
 def mask255(r):
     return r[:31] + bytes([r[31] & 0x7f]) if len(r) == 32 else r
+
+
+# ------------------------------------------------------------------------------------------ forged first packets
+# Ephemeral values for which X25519 yields the all-zero string whatever the private key (RFC 7748 section 6.1 /
+# the blocklist every X25519 library documents): the neutral element, the point of order 2, the points of order 4
+# on the curve (u = 1) and on the twist (u = -1), the two u-coordinates of the points of order 8, and their
+# non-canonical encodings (u + p below 2^255; bit 255 set, which X25519 masks).  A sender who picks one of them does
+# not need the server's public key to know the "shared secret" an implementation would use if it lost the error.
+P25519 = 2**255 - 19
+ORDER8A = int.from_bytes(bytes.fromhex('e0eb7a7c3b41b8ae1656e3faf19fc46ada098deb9c32b1fd866205165f49b800'), 'little')
+ORDER8B = int.from_bytes(bytes.fromhex('5f9c95bca3508c24b1d0b1559c83ef5b04445cc4581c8e86d8224eddd09f1157'), 'little')
+_LOW = [('zero', 0), ('one', 1), ('order8a', ORDER8A), ('order8b', ORDER8B), ('p-1', P25519 - 1), ('p', P25519), ('p+1', P25519 + 1)]
+LOW_ORDER_POINTS = [(n, v.to_bytes(32, 'little')) for n, v in _LOW] + \
+                   [(n + '|bit255', (v + 2**255).to_bytes(32, 'little')) for n, v in _LOW]
+# encodings that are small-order points only for an implementation that does NOT mask bit 255 (u + p, 2p-1, 2p, 2p+1
+# as 256-bit numbers); X25519 proper computes an ordinary secret for them - the forger cannot know it
+UNMASKED_VARIANTS = [(n + '+p', ((v + P25519) % 2**256).to_bytes(32, 'little'))
+                     for n, v in (('order8a', ORDER8A), ('order8b', ORDER8B), ('p-1', P25519 - 1), ('p', P25519), ('p+1', P25519 + 1))]
+FORGE_POINTS = LOW_ORDER_POINTS + UNMASKED_VARIANTS
+
+
+def py_x25519(k, u):
+    """RFC 7748 X25519 on 32-byte strings (plain Python; used to record which forged points really are of small order)"""
+    k = bytearray(k); k[0] &= 248; k[31] &= 127; k[31] |= 64
+    kn = int.from_bytes(k, 'little')
+    x1 = (int.from_bytes(u, 'little') & (2**255 - 1)) % P25519
+    x2, z2, x3, z3, swap = 1, 0, x1, 1, 0
+    for t in range(254, -1, -1):
+        kt = (kn >> t) & 1
+        if swap ^ kt:
+            x2, x3, z2, z3 = x3, x2, z3, z2
+        swap = kt
+        A = (x2 + z2) % P25519; AA = A * A % P25519; B = (x2 - z2) % P25519; BB = B * B % P25519
+        E = (AA - BB) % P25519; C = (x3 + z3) % P25519; D = (x3 - z3) % P25519
+        DA = D * A % P25519; CB = C * B % P25519
+        x3 = (DA + CB) ** 2 % P25519; z3 = x1 * (DA - CB) ** 2 % P25519
+        x2 = AA * BB % P25519; z2 = E * (AA + 121665 * E) % P25519
+    if swap:
+        x2, x3, z2, z3 = x3, x2, z3, z2
+    return (x2 * pow(z2, P25519 - 2, P25519) % P25519).to_bytes(32, 'little')
+
+
+def tls_sealed_layout(pkt):
+    """genuine, well-formed ClientHello record -> (offset of random, offset of the 32-byte session id, offset of the
+    32-byte x25519 key share)"""
+    p = 43
+    assert pkt[p] == 32
+    sid = p + 1
+    p += 1 + 32
+    p += 2 + ((pkt[p] << 8) | pkt[p + 1])
+    p += 1 + pkt[p]
+    end = p + 2 + ((pkt[p] << 8) | pkt[p + 1])
+    p += 2
+    while p < end:
+        typ = (pkt[p] << 8) | pkt[p + 1]
+        ln = (pkt[p + 2] << 8) | pkt[p + 3]
+        if typ == 0x33:
+            q, qe = p + 6, p + 4 + ln
+            while q < qe:
+                grp = (pkt[q] << 8) | pkt[q + 1]
+                kl = (pkt[q + 2] << 8) | pkt[q + 3]
+                if grp == 0x1d and kl == 32:
+                    return 11, sid, q + 4
+                q += 4 + kl
+        p += 4 + ln
+    raise ValueError('no x25519 key share')
+
+
+def forge_packet(kind, template, u, block):
+    """a first packet shaped like `template` (a genuine one) carrying ephemeral value u and the 64-byte block"""
+    assert len(u) == 32 and len(block) == 64
+    if kind == 'tls':
+        r, sid, ks = tls_sealed_layout(template)
+        m = bytearray(template)
+        m[r:r + 32] = u
+        m[sid:sid + 32] = block[:32]
+        m[ks:ks + 32] = block[32:]
+        return bytes(m)
+    out = []
+    for ln in template.split(b'\r\n'):
+        if ln.lower().startswith(b'hidden:'):
+            ln = ln.split(b':', 1)[0] + b': ' + base64.b64encode(u + block)
+        out.append(ln)
+    return b'\r\n'.join(out)
 
 
 # ------------------------------------------------------------------------------------------ property-text helpers
@@ -178,8 +267,11 @@ def build_cases(ctx, packets):
     states = {'S0': base_state('S0')}
     streams = []   # (category, stream bytes, state name, may_session)
 
-    def add(cat, s, st='S0', may=False):
-        streams.append((cat, bytes(s), st, may))
+    def add(cat, s, st='S0', may=False, pwfail=0):
+        streams.append((cat, bytes(s), st, may, pwfail))
+
+    seals = {n: p for n, (k, p, _) in packets.items() if k == 'seal'}
+    packets = {n: v for n, v in packets.items() if v[0] != 'seal'}
 
     # A. every first-byte value
     for b in range(256):
@@ -207,6 +299,19 @@ def build_cases(ctx, packets):
         if kind == 'ws' and may:
             continue     # bytes after the request head make gorilla refuse the upgrade of an AUTHENTICATED client: not C09
         add('genuine+trailing/' + name.split('_', 2)[2], pkt + b'\x14\x03\x03\x00\x01\x01' + bytes(rng.randrange(256) for _ in range(40)), may=may)
+    # C2. forged hellos: every small-order ephemeral value (and the encodings that are small-order only without masking),
+    #     block sealed under the all-zero key - the sender never used the server's public key: ordinary web traffic
+    for tname in sorted(n for n in packets if n.endswith('ok_bypass') and (n.startswith('tls_firefox') or n.startswith('ws_'))):
+        kind, tpl, _ = packets[tname]
+        for sname, block in sorted(seals.items()):
+            pn = sname[len('seal_'):]
+            u = dict(FORGE_POINTS)[pn]
+            add('forged/%s/%s' % (kind, pn), forge_packet(kind, tpl, u, block), may=False)
+    # C3. the server's own reply cannot be written (peer reset the connection after its hello): direct transport
+    #     (the WebSocket responder goes through net/http's hijack: an authenticated client whose upgrade fails is not C09)
+    for name, (kind, pkt, may) in sorted(packets.items()):
+        if kind == 'tls' and may:
+            add('session-write-fails/' + name.split('_', 2)[2], pkt, may=True, pwfail=1)
     # D. truncated / mutated / replayed Cloak hellos
     okpk = [(n, p) for n, p in sorted(packets.items()) if n.endswith('ok_bypass') or n.endswith('ok_dbuser')]
     for name, (kind, pkt, may) in okpk:
@@ -270,10 +375,10 @@ def build_cases(ctx, packets):
     scripts_all = None
     cases = []
     cid = 0
-    for cat, s, st, may in streams:
+    for cat, s, st, may, pwfail in streams:
         segs = segmentations(rng, s, quick)
         scripts = target_scripts(rng, len(s))
-        heavy = cat.startswith(('genuine', 'http', 'tls-record/complete', 'cloak/replayed'))
+        heavy = cat.startswith(('genuine', 'http', 'tls-record/complete', 'cloak/replayed')) or (cat.startswith('forged') and '/zero' in cat)
         combos = []
         if heavy or not quick:
             # all segmentations with rotating scripts/endings, plus the two failure scripts (plus, thorough: all scripts)
@@ -292,6 +397,8 @@ def build_cases(ctx, packets):
         for sn, ch, (scn, sc), end in combos:
             c = dict(id='c%d' % cid, st=st, now=NOW, end=end, dial=sc['dial'], reply=hx(sc['reply']), after=sc['after'],
                      tclose=sc['tclose'], chunks=[hx(x) for x in ch if x])
+            if pwfail:
+                c['pwfail'] = pwfail
             c['meta'] = dict(cat=cat, seg=sn, script=scn, may_session=may, stream=s.hex())
             cases.append(c)
             cid += 1
@@ -339,9 +446,23 @@ def oracle(c, o):
     cls = impl_class(o)
     tgt, peer = unhx(o['tgt']), unhx(o['peer'])
     ftgt, fpeer = unhx(o['ftgt']), unhx(o['fpeer'])
+    # per connection exactly one of {relayed to the redirect target verbatim, served as a Cloak session} (or closed),
+    # and the bytes the peer gets are those of that one outcome
+    dials = max(int(o['dials']), int(o.get('fdials', 0)))
+    if dials > 1:
+        return 'relayed-twice', 'the connection was handed to the redirect target %d times' % dials
+    if dials > 0 and not reply.startswith(fpeer):
+        k = next((i for i in range(min(len(reply), len(fpeer))) if reply[i] != fpeer[i]), min(len(reply), len(fpeer)))
+        return 'relayed-and-answered', ('the connection was relayed to the redirect target AND the peer received %d bytes the target never sent '
+                                        '(first at offset %d: %s...): the server answered a relayed connection itself' % (len(fpeer) - k, k, fpeer[k:k + 24].hex()))
     if cls == 'session':
         if not c['meta']['may_session']:
             return 'server-byte', 'the server wrote %d bytes of its own to a peer that did not present a valid fresh handshake of an authorised user' % len(peer)
+        return None
+    if c.get('pwfail') and o.get('pwf') == '1':
+        # the server's reply could not be written: the connection must end up closed, nothing else may happen
+        if o['uns'] == '1' or o['fin'][0] != '1':
+            return 'wedged', 'the reply to an authenticated peer could not be written and the connection was left open and unserved'
         return None
     if c['meta']['may_session'] and cls == 'close' and o['peer'] == '-':
         return None     # sealed payload of an authorised user (e.g. a WebSocket upgrade that then fails): not this property
@@ -393,9 +514,9 @@ def model_line(c, sp, tb):
     if tb and 'hid' in tb:
         n = int(tb['n'])
         hid = '%s:%s' % (s[:2 * n] or '-', tb['hid'])
-    return '%s now=%s end=%s dial=%s reply=%s after=%d tclose=%d s=%s %s dh=%s hid=%s' % (
-        c['id'], zhex(c['now']), c['end'], c['dial'], c['reply'], min(c['after'], len(s) // 2 + 1), 1 if c['tclose'] else 0, s or '-',
-        state_tokens(sp), dh, hid)
+    return '%s now=%s end=%s dial=%s reply=%s after=%d tclose=%d pwfail=%d s=%s %s dh=%s hid=%s' % (
+        c['id'], zhex(c['now']), c['end'], c['dial'], c['reply'], min(c['after'], len(s) // 2 + 1), 1 if c['tclose'] else 0,
+        c.get('pwfail', 0), s or '-', state_tokens(sp), dh, hid)
 
 
 def auth_class_of_model(dec):
@@ -431,6 +552,13 @@ def compare(c, o, tb, mline):
         if (mu, int(msid, 16), mm, menc, mun) != (iu, int(isid or '-1'), im, ienc, iun):
             return 'ClientInfo: model %s, implementation %s' % (m['dec'], tb.get('ci'))
     cls = impl_class(o)
+    if max(int(o['dials']), int(o.get('fdials', 0))) != (1 if m['out'] == 'web' else 0):
+        return 'redirect dials: model %d (%s), implementation %s (after the hang-up %s)' % (1 if m['out'] == 'web' else 0, m['out'], o['dials'], o.get('fdials'))
+    if m['out'] == 'session-wfail':
+        # finish_tls with a failing Write: nothing reaches the peer, the responder closes the connection, the function returns
+        if (cls, o['pc'], o['ret'], o.get('pwf')) != ('close', '1', '1', '1'):
+            return 'failed reply write: model closed/returned, implementation %s pc=%s ret=%s pwf=%s' % (cls, o['pc'], o['ret'], o.get('pwf'))
+        return None
     if m['out'] == 'session' and m['tr'] == 'ws' and cls == 'close' and c['meta']['cat'].startswith('cloak/'):
         return None      # authenticated WebSocket request whose (mutated) upgrade headers gorilla refuses: not C09
     if cls != m['out']:
@@ -480,7 +608,7 @@ def run_cases(ctx, states, cases, tag):
 
 
 def gen_packets(ctx):
-    specs = gen_specs(ctx.seed)
+    specs = gen_specs(ctx.seed) + [(g, False) for g in forge_specs()]
     rc, log, out, dt = run_go(ctx, 'gen', [json.dumps(g) for g, _ in specs], 'gen')
     packets = {}
     for g, may in specs:
@@ -514,6 +642,7 @@ def correspondence(ctx, verdict, pr):
     rc, log, parsed, mrc, merr, model, dt = run_cases(ctx, states, cases, 'cases')
     if rc != 0:
         res['broken'].append(('Go driver TestVerifC09 failed to build or run', log[-3000:]))
+        crash_attribution(ctx, verdict, states, cases, parsed)
     if mrc != 0:
         res['broken'].append(('extracted model c09 failed', str(merr)[-2000:]))
     mism = []
@@ -571,6 +700,25 @@ def correspondence(ctx, verdict, pr):
     return res
 
 
+def crash_attribution(ctx, verdict, states, cases, parsed):
+    """The driver writes and flushes one line per case: when the process dies (a panic in a goroutine of the server
+    outside every recover), the first case without a line is the input that killed it; confirmed by running it alone."""
+    missing = [c for c in cases if parsed.get(c['id'], (None, None))[0] is None]
+    if not missing or len(missing) == len(cases):
+        return False
+    c = missing[0]
+    rc1, log1, parsed1, _, _, _, _ = run_cases(ctx, {c['st']: states[c['st']]}, [c], 'crash')
+    if rc1 == 0 or parsed1.get(c['id'], (None, None))[0] is not None:
+        return False
+    tail = [ln for ln in log1.splitlines() if ln.startswith(('panic:', 'goroutine ', '\t/repo', 'github.com/cbeuw/Cloak')) or '[signal' in ln][:14]
+    verdict.oracle_failure('server-crash', 'C09 oracle [server-crash]: the server process died while handling this connection (panic outside every recover): %s '
+                           '(case %s: %s, %d-byte stream, target script %s, end=%s, pwfail=%s)' % (
+                               ' | '.join(tail[:3]), c['id'], c['meta']['cat'], len(c['meta']['stream']) // 2, c['meta']['script'], c['end'], c.get('pwfail', 0)),
+                           dict(case=c, state=states[c['st']], implementation='process died', go_log=tail,
+                                how='python3 tools/check.py C09 --replay <this file>'))
+    return True
+
+
 def replay(ctx, verdict):
     r = ctx.replay
     c = r.get('case')
@@ -585,7 +733,7 @@ def replay(ctx, verdict):
     print('model         :', model.get(c['id']))
     if o is None:
         print(log[-2000:])
-        return 2
+        return 1 if r.get('signature') == 'server-crash' and rc != 0 else 2
     msg = oracle(c, o)
     print('oracle        :', msg)
     return 1 if msg else 0
